@@ -155,7 +155,7 @@ func normStartup(msgs []pg.BMsg) string {
 func (ch c11) Run(c *core.Ctx) {
 	n := 400
 	if c.Tier == "thorough" {
-		n = 8000
+		n = 30000
 	}
 	envTLS := hs.Start(hs.Parse, wire.TLSConfig(hs.ServerTLS()))
 	envNone := hs.Start(hs.Parse)
